@@ -555,6 +555,19 @@ def _guard(ctx, o, fn):
     ctx.guarded(o, body)
 
 
+def _dedupe(o):
+    """the same finding key is recorded once (two task-line emissions share one helper)"""
+    from sa.report import norm_text
+    for name, store in (('refute', o.refuted), ('undecided', o.unknown)):
+        orig = getattr(o, name)
+
+        def rec(func, node, construct, msg, orig=orig, store=store):
+            key = f"{o.id}|{func.qual if func else '-'}|{norm_text(construct)}"
+            if not any(x.key == key for x in store):
+                orig(func, node, construct, msg)
+        setattr(o, name, rec)
+
+
 def wbs_attr(ctx, R) -> str:
     """attribute of the renderer that holds the WBS handed to the constructor"""
     init = ctx.prog.func(qual(R, '__init__'))
@@ -671,7 +684,7 @@ def check_templates(ctx, o):
         elif not fed:
             o.refute(f, c, R['body'], f"no substitute() keyword is computed by {R['cls']}.{R['body']}: the task rendering "
                                       f"never reaches the document")
-        else:
+        elif len(fed) > 1:
             o.undecided(f, c, c, f"{R['body']}() feeds keywords {fed}")
 
 
@@ -701,8 +714,10 @@ def check_escape(ctx, o):
             continue
         v = ps[idx + 1][1]
         esc_ok = f.module.imports.get('escape') == 'html.escape'
-        m = (match("escape($d, $*a)", v) if esc_ok else None) or \
-            (match("html.escape($d, $*a)", v) if f.module.imports.get('html') == 'html' else None)
+        m = None
+        if isinstance(v, ast.Call) and v.args and ((esc_ok and match("escape", v.func)) or
+                                                   (f.module.imports.get('html') == 'html' and match("html.escape", v.func))):
+            m = {'d': v.args[0]}
 
         def is_doc(x):
             return isinstance(x, ast.Call) and helper_of(ctx, f, x) is to_html and not x.args and not x.keywords
@@ -1979,11 +1994,14 @@ def check_parent(ctx, o, f: Func, st, pv: ast.AST, t: str, w: str):
 
 _PROGRESS_OK = ("1 - max($e - $s, 0) / $e", "1 - max(0, $e - $s) / $e", "($e - max($e - $s, 0)) / $e", "($e - max(0, $e - $s)) / $e",
                 "min($s, $e) / $e", "min($e, $s) / $e", "min($s / $e, 1)", "min(1, $s / $e)")
-_PROGRESS_BAD = (("$s / $e", "exceeds 1 when spent > estimate"), ("1 - ($e - $s) / $e", "exceeds 1 when spent > estimate"),
+_PROGRESS_BAD = (("1 - ($e - $s) / $e", "exceeds 1 when spent > estimate"),
                  ("($e - $s) / $e", "is the remaining share and negative when spent > estimate"),
                  ("max($e - $s, 0) / $e", "is the remaining share, not the progress"),
+                 ("max(0, $e - $s) / $e", "is the remaining share, not the progress"),
                  ("1 - max($e - $s, 0)", "is not divided by the estimate"),
-                 ("1 - max($e - $s, 0) / $s", "divides by the spent work"))
+                 ("1 - max($e - $s, 0) / $s", "divides by the spent work"),
+                 ("1 - max($s - $e, 0) / $s", "divides by the spent work"),
+                 ("$s.spent / $e.estimate", "exceeds 1 when spent > estimate"))
 
 
 def check_progress(ctx, o, f: Func, st, pv: ast.AST, at, t: str):
@@ -2093,6 +2111,8 @@ def check(ctx):
         'sinks': ctx.ob('sinks', 'R5', "a task name reaching the gantt line loses ':'; `</` is neutralised after json.dumps inside "
                                        "<script>; all name labels of network edges pass the same quote-removing sanitiser", floor=7),
     }
+    for o_ in O.values():
+        _dedupe(o_)
     _guard(ctx, O['templates'], lambda o: check_templates(ctx, o))
     _guard(ctx, O['escape'], lambda o: check_escape(ctx, o))
     _guard(ctx, O['once'], lambda o: gantt_once(ctx, o))
